@@ -295,8 +295,8 @@ package aws
 //@   ensures [C17,C07] Jlen > old(Jlen) ==> Jkind[old(Jlen)] == A_FLEET && Jnum[old(Jlen)] == addCount && Jaux[old(Jlen)] == addCount
 //@   ensures [C17,C07] forall k :: old(Jlen) < k && k < Jlen ==> Jkind[k] != A_FLEET
 //@   ensures [C18] err == nil ==> TERMs == old(TERMs)
-//@   ensures [C18] Jlen > old(Jlen) + 1 ==> (forall i :: 0 <= i && i < len(FLEETout.Instances) ==> (forall j :: 0 <= j && j < len(acqIds(FLEETout, i)) ==> ATTs[deref(acqIds(FLEETout, i)[j])] || TERMs[deref(acqIds(FLEETout, i)[j])]))
-//@   ensures [C18] Jlen > old(Jlen) + 1 && err == nil ==> (forall i :: 0 <= i && i < len(FLEETout.Instances) ==> (forall j :: 0 <= j && j < len(acqIds(FLEETout, i)) ==> ATTs[deref(acqIds(FLEETout, i)[j])]))
+//@   ensures [C18] Jlen > old(Jlen) && Jok[old(Jlen)] ==> (forall i :: 0 <= i && i < len(FLEETout.Instances) ==> (forall j :: 0 <= j && j < len(acqIds(FLEETout, i)) ==> ATTs[deref(acqIds(FLEETout, i)[j])] || TERMs[deref(acqIds(FLEETout, i)[j])]))
+//@   ensures [C18] Jlen > old(Jlen) && Jok[old(Jlen)] && err == nil ==> (forall i :: 0 <= i && i < len(FLEETout.Instances) ==> (forall j :: 0 <= j && j < len(acqIds(FLEETout, i)) ==> ATTs[deref(acqIds(FLEETout, i)[j])]))
 //@ loop #0
 //@ loop #1
 //@   invariant cap(instances) == 0 || birth(base(instances)) >= entry(now)
